@@ -61,9 +61,9 @@ def buildContains (container item : Term V) : Cond V :=
 
 /-- `Not(operand)` on a constructed tree. -/
 def neg : Cond V → Cond V
-  | .cmp op l r => .cmp (if Gen.notTogglesFlag then Gen.invOp op else op) l r
-  | .truth inv t => .truth (if Gen.notTogglesFlag then !inv else inv) t
-  | .pred inv n args => .pred (if Gen.notTogglesFlag then !inv else inv) n args
+  | .cmp op l r => .cmp (Gen.invOp op) l r
+  | .truth inv t => .truth (if Gen.notTogglesFlag then !inv else true) t
+  | .pred inv n args => .pred (if Gen.notTogglesFlag then !inv else true) n args
   | .and l r => if Gen.notAndBuildsElseIf then .elseIf (neg l) (neg r) else .and (neg l) (neg r)
   | .elseIf l r => if Gen.notOrBuildsAnd then .and (neg l) (neg r) else .elseIf (neg l) (neg r)
   | .sub sel c => .sub sel (neg c)
